@@ -79,8 +79,12 @@ void describe(char *buf, size_t n)
     snprintf(buf, n, "{\"mode\": \"allocator edge requests (max_size()+1, 0, max_size())\"}");
   }
 }
-const SimScenario scen = {"c14", "C14", 16 | 32, reset, do_plan, a14_run, check, stuck, describe, fault_names, probe_names, 1, 0};
+const SimScenario scen = {"c14", "C14", 16, reset, do_plan, a14_run, check, stuck, describe, fault_names, probe_names, 1, 0};
 SimRegistrar reg(&scen);
+// the real tbbmalloc keeps its state across runs: one run per forked child, so that every run sees the
+// same allocator state and replays exactly
+const SimScenario scen_tbb = {"c14tbb", "C14", 32, reset, do_plan, a14_run, check, stuck, describe, fault_names, probe_names, 1, 1};
+SimRegistrar reg_tbb(&scen_tbb);
 }  // namespace
 
 extern "C" {
